@@ -1,7 +1,8 @@
 """C14 helpers: the PyNs program language on the Python side.
 
 * AST constructors + renderer (wire JSON of lean/Driver/OpPyNs.lean  ->  Python source)
-* generator of sessions (context, optional pyimport, `!py` expressions, `pypyr.steps.py` blocks)
+* generator of sessions (context, pyimport, `!py` expressions, `pypyr.steps.py` blocks, context updates /
+  deletions / contextclearall, rehydration of the Context object by pickle / deepcopy / copy)
 * the implementation runner: builds a real `Context` whose values are marker objects, runs every op
   through the real `PyString.get_value` / `pypyr.steps.py.run_step` / `pypyr.steps.pyimport.run_step`
   and dumps results / context / import namespace by *identity* (provenance of every read)
@@ -12,6 +13,10 @@ Nothing here imports pypyr at module import time.
 from __future__ import annotations
 
 import builtins
+import copy
+import importlib
+import pickle
+import signal
 import sys
 import types
 
@@ -266,6 +271,141 @@ def block_facts(b):
     return facts
 
 
+# --------------------------------------------------------------------------
+# CPython 3.12.1 comprehension inlining (PEP 709) merges the symbols of an inlined list comprehension into
+# the enclosing scope's table; a LATER read of such a name from another inlined comprehension of the same
+# code unit is then compiled against the merged entry (a hidden fast local / a cell) instead of as the
+# global it is: `[([0 for z in U], [z for y in U]) for a in T]` is an UnboundLocalError although z is a
+# global. That is a defect of this CPython release, not of pypyr and not part of the modelled scheme:
+# programs where it CAN occur are detected here (over-approximation) and left out of the model comparison
+# (counted); the monitors still judge them (plain Python has the same quirk).
+# --------------------------------------------------------------------------
+
+class _Sc:
+    """One symbol-table scope of the rendered program: the top level of an eval / exec / class body
+    ('module'), a lambda / def / generator expression ('func'), or an inlined list comprehension ('listcomp').
+    `own`: the names its own code mentions (reads, targets, parameters, := targets written in it)."""
+
+    def __init__(self, kind, parent, targets=()):
+        self.kind, self.parent = kind, parent
+        self.targets = set(targets)
+        self.own = set(targets)
+        self.children = []
+        if parent is not None:
+            parent.children.append(self)
+
+    def all_names(self):
+        out = set(self.own)
+        for c in self.children:
+            out |= c.all_names()
+        return out
+
+    def has_function_mentioning(self, z):
+        for c in self.children:
+            if c.kind == 'func' and z in c.all_names():
+                return True
+            if c.has_function_mentioning(z):
+                return True
+        return False
+
+
+def _scopes(e, sc, comps):
+    if 'n' in e:
+        sc.own.add(e['n'])
+    elif 'c' in e:
+        pass
+    elif 'w' in e:
+        sc.own.add(e['w'][0])
+        _scopes(e['w'][1], sc, comps)
+    elif 't' in e:
+        for x in e['t']:
+            _scopes(x, sc, comps)
+    elif 'lam' in e:
+        ps, body = e['lam']
+        _scopes(body, _Sc('func', sc, ps), comps)
+    elif 'call' in e:
+        _scopes(e['call'][0], sc, comps)
+        for x in e['call'][1]:
+            _scopes(x, sc, comps)
+    elif 'app' in e:
+        _scopes(e['app'][0], sc, comps)
+        _scopes(e['app'][1], sc, comps)
+    else:
+        c = e['comp']
+        _scopes(c['cl'][0][1], sc, comps)          # the first iterable belongs to the enclosing scope
+        inner = _Sc('func' if c['gen'] else 'listcomp', sc, [t for t, _, _ in c['cl']])
+        if not c['gen']:
+            comps.append(inner)
+        for i, (t, it, cs) in enumerate(c['cl']):
+            if i:
+                _scopes(it, inner, comps)
+            for x in cs:
+                _scopes(x, inner, comps)
+        _scopes(c['elt'], inner, comps)
+
+
+def _merge_quirk(comps):
+    """The rule read off CPython 3.12.1's symtable.c (`inline_comprehension`, `analyze_cells`): the LOCAL
+    symbols of an inlined list comprehension K are copied into its parent scope S unless S's own code
+    already mentions the name; once copied, every other use of that name compiled in S's unit — another
+    inlined comprehension of S, a free variable of a function nested in S — binds to the copy (an unbound
+    hidden local / cell); the copy travels on to S's parent while S is itself an inlined comprehension.
+    At the top level of a module / class body the copy is harmless unless it is a cell (a function nested
+    in K captures the name). Over-approximation: order of the siblings and whether the other use would
+    really have been bound outside are ignored."""
+    for k in comps:
+        for z in k.targets:
+            child, s = k, k.parent
+            while s is not None:
+                if z in s.own:
+                    break
+                others = any(z in c.all_names() for c in s.children if c is not child)
+                if s.kind in ('func', 'listcomp'):
+                    if others:
+                        return True
+                elif others and (k.has_function_mentioning(z)):
+                    return True
+                if s.kind != 'listcomp':
+                    break
+                child, s = s, s.parent
+    return False
+
+
+def inlining_quirk(op):
+    """Can CPython 3.12.1's symbol merge of inlined comprehensions change a name resolution in this op?"""
+    comps = []
+    if 'eval' in op:
+        _scopes(op['eval'], _Sc('module', None), comps)
+    elif 'exec' in op:
+        top = _Sc('module', None)
+        for s in op['exec']:
+            if 'def' in s:
+                d = s['def']
+                top.own.add(d['f'])
+                f = _Sc('func', top, list(d['ps']) + list(d['gl']) + [x for x, _ in d['body']])
+                for _, e in d['body']:
+                    _scopes(e, f, comps)
+                _scopes(d['ret'], f, comps)
+            elif 'cls' in s:
+                top.own.add(s['cls'][0])
+                c = _Sc('module', top, [x for x, _ in s['cls'][1]])
+                for _, e in s['cls'][1]:
+                    _scopes(e, c, comps)
+            else:
+                for k in ('as', 'aug'):
+                    if k in s:
+                        top.own.add(s[k][0])
+                if 'del' in s:
+                    top.own.add(s['del'])
+                if 'imp' in s:
+                    top.own.add(s['imp'][0])
+                for e, _ in stmt_exprs(s):
+                    _scopes(e, top, comps)
+    else:
+        return False
+    return _merge_quirk(comps)
+
+
 def eval_construct(e):
     fs = expr_facts(e)
     if 'walrus-top-level' in fs:
@@ -303,6 +443,30 @@ class Marker:
     def __iadd__(self, other):
         return (self, other)
 
+    # a marker stands for ONE object of the pipeline's world: a pickle round trip / deep copy of the
+    # Context must give back the canonical instance, so provenance stays observable afterwards
+    def __reduce__(self):
+        return (marker, (self.org, self.name))
+
+    def __deepcopy__(self, memo):
+        return self
+
+    def __copy__(self):
+        return self
+
+
+class _ScratchModule(types.ModuleType):
+    """A scratch import target that (unlike a real module) survives pickle / deepcopy by reference."""
+
+    def __reduce__(self):
+        return (importlib.import_module, (self.__name__,))
+
+    def __deepcopy__(self, memo):
+        return self
+
+    def __copy__(self):
+        return self
+
 
 MODS = ['c14m1', 'c14m2']
 ATTRS = ['n1', 'n2', 'len', 'a', 'T', 'y']
@@ -323,7 +487,7 @@ def marker(org, name):
 def ensure_modules():
     for mod in MODS:
         if mod not in sys.modules or not hasattr(sys.modules[mod], '_c14'):
-            m = types.ModuleType(mod)
+            m = _ScratchModule(mod)
             m._c14 = True
             for a in ATTRS:
                 setattr(m, a, marker('imp', f'{mod}.{a}'))
@@ -396,23 +560,32 @@ class World:
             return self.special(name)
         raise ValueError(v)
 
-    def dump(self, v, seen):
+    TUPLE_DEPTH = 6     # same constant in lean/Driver/OpPyNs.lean (dumpV)
+
+    def dump(self, v, seen, td=0):
+        """Structural dump; lists / functions / classes are numbered by first appearance (identity), tuples
+        are dumped by value — a tuple nested more than TUPLE_DEPTH tuples deep is cut (`{'deep': True}`):
+        `(y := (y, y))` in a loop builds a DAG whose by-value dump is exponential."""
         if v is None:
             return None
         t = _TOK_BY_ID.get(id(v))
         if t is not None:
             return t
         if type(v) is int:
-            return v
+            # the language's own integers are small constants and lengths; anything else came out of a real
+            # builtin such as id() and is an address
+            return v if -10**6 < v < 10**6 else {'addr': True}
         if type(v) is str and v in self.src_text:
             return tok('special', self.src_text[v])
         if type(v) is tuple:
-            return {'t': [self.dump(x, seen) for x in v]}
+            if td >= self.TUPLE_DEPTH:
+                return {'deep': True}
+            return {'t': [self.dump(x, seen, td + 1) for x in v]}
         if type(v) is list:
             if id(v) in seen:
                 return {'seen': seen[id(v)]}
             k = seen[id(v)] = len(seen)
-            return {'l': k, 'xs': [self.dump(x, seen) for x in v]}
+            return {'l': k, 'xs': [self.dump(x, seen, td) for x in v]}
         if isinstance(v, types.FunctionType):
             if getattr(v, '__qualname__', '') == 'get_save.<locals>.save':
                 return tok('special', 'save')
@@ -420,7 +593,8 @@ class World:
                 return {'seen': seen[id(v)]}
             k = seen[id(v)] = len(seen)
             return {'fn': k}
-        if v is builtins.__dict__:
+        if v is builtins.__dict__ or (type(v) is dict and v.get('__name__') == 'builtins' and 'len' in v):
+            # (a deep copy / pickle round trip of a context that save()d __builtins__ holds a copy)
             return tok('special', '__builtins__')
         for n in POOL_BUILTINS:
             if v is builtins.__dict__.get(n):
@@ -430,7 +604,7 @@ class World:
             if id(v) in seen:
                 return {'seen': seen[id(v)]}
             k = seen[id(v)] = len(seen)
-            return {'cls': k, 'attrs': [[a, self.dump(x, seen)] for a, x in vars(v).items()
+            return {'cls': k, 'attrs': [[a, self.dump(x, seen, td)] for a, x in vars(v).items()
                                         if not a.startswith('__')]}
         return {'unknown': type(v).__name__}
 
@@ -442,37 +616,131 @@ def snapshot(context):
     return [(k, id(v)) for k, v in dict.items(context)]
 
 
-def run_impl(case, upto=None):
-    """Run the case's ops against the real pypyr. Returns (steps, monitor_findings).
+REHYDRATE_ORDER = {'pickle': ['pickle', 'deepcopy', 'copy'], 'deepcopy': ['deepcopy', 'copy'], 'copy': ['copy']}
+
+
+def carries_code_objects(context):
+    """Does the context (or the import namespace) reach a function or class object made by inline Python?
+    Those do not pickle, and deepcopy treats them as atoms: whatever they reference (a list the context
+    also holds) stays the OLD object while the context gets a copy — the aliasing between cargo changes,
+    which is a fact about the cargo, not about Context.__getstate__/__setstate__."""
+    todo = list(dict.values(context)) + list((getattr(context, '_pystring_globals', None) or {}).values())
+    seen = set()
+    while todo:
+        v = todo.pop()
+        if id(v) in seen:
+            continue
+        seen.add(id(v))
+        if isinstance(v, types.FunctionType) or (isinstance(v, type) and v.__name__ == 'Cq'):
+            return True
+        if type(v) in (list, tuple):
+            todo.extend(v)
+        elif type(v) is dict and v is not builtins.__dict__:
+            todo.extend(v.values())
+    return False
+
+
+def rehydrate(context, kind):
+    """Context -> (rehydrated Context, kind actually used). The op is about the Context class's own
+    __getstate__/__setstate__, not about its cargo: a context carrying function / class objects made by
+    inline Python goes through copy.copy (see carries_code_objects); a method that raises falls back to
+    the next one."""
+    last = None
+    if kind != 'copy' and carries_code_objects(context):
+        kind = 'copy'
+    for k in REHYDRATE_ORDER[kind]:
+        try:
+            if k == 'pickle':
+                return pickle.loads(pickle.dumps(context)), k
+            if k == 'deepcopy':
+                return copy.deepcopy(context), k
+            return copy.copy(context), k
+        except Exception as e:     # noqa
+            last = e
+    raise last
+
+
+def eval_obs(w, src, context):
+    from pypyr.dsl import PyString
+    try:
+        return {'ok': w.dump(PyString(src).get_value(context), {})}
+    except Exception as e:     # noqa: the expression's own exception is an observation
+        return {'err': err_name(e)}
+
+
+def import_probe(w, context, my_imps, cleared, findings, after):
+    """From the property text: names imported through pyimport are readable by `!py` (top level and from
+    a nested scope) unless a context key of that name stands in front; names of a wiped import namespace
+    are not. Judged against the harness's OWN record of what pyimport was asked to import."""
+    for name, obj in my_imps.items():
+        if name in context or name == '__builtins__':
+            continue
+        want = {'ok': w.dump(obj, {})}
+        for src in (name, f'(lambda: {name})()'):
+            got = eval_obs(w, src, context)
+            if got != want:
+                findings.append((
+                    f'!py {src!r} after {after}: the name imported through pyimport is not readable',
+                    {'site': 'get_eval_string', 'monitor': 'import-visibility',
+                     'effect': 'imported-name-not-readable', 'after': after},
+                    {'impl': got, 'expected': want}))
+                break
+    for name in cleared:
+        if name in context or name in my_imps or name in builtins.__dict__:
+            continue
+        got = eval_obs(w, name, context)
+        if got != {'err': 'NameError'}:
+            findings.append((
+                f'!py {name!r} after {after}: a name of the wiped pyimport namespace is still readable',
+                {'site': 'get_eval_string', 'monitor': 'import-visibility',
+                 'effect': 'cleared-import-still-readable', 'after': after},
+                {'impl': got, 'expected': {'err': 'NameError'}}))
+
+
+def run_impl(case, upto=None, soft_from=None, hang=None, soft_s=3.0):
+    """Run the case's ops against the real pypyr. Returns (steps, monitor_findings, notes).
+    Ops from index `soft_from` on are run for the monitors only (the model stopped before them): each gets
+    `soft_s` seconds (the caller's SIGALRM handler raises `hang`), and the run ends quietly at a timeout.
 
     steps[i] = {'res': {'ok': D}|{'err': name}, 'ctx': [[k, D]…], 'imps': …, 'hidden': …}
-    monitor_findings = list of (detail, signature, impl_obs)."""
+    monitor_findings = list of (detail, signature, impl_obs); notes = counters."""
     from pypyr.context import Context
     from pypyr.dsl import PyString
     import pypyr.steps.py as pystep
     import pypyr.steps.pyimport as pyimportstep
+    import pypyr.steps.contextclearall as clearallstep
 
     w = World(case)
     context = Context(w.ctx)
+    my_imps = {}        # the harness's own record of what pyimport registered (name -> object)
+    cleared = set()     # names that were imported once and then wiped by contextclearall
+    rehydrated = None   # how the Context object in use was last rehydrated
     for k, v in case.get('imps', []):
         context.pystring_globals_update({k: w.val(v)})
+        my_imps[k] = w.val(v)
     steps = []
     findings = []
+    notes = []
     ops = case['ops'] if upto is None else case['ops'][:upto]
-    clean_ns = True     # no module-scope assignment expression evaluated so far on this context
-    for op in ops:
+    state = {'context': context, 'rehydrated': None}
+
+    def do_op(op):
+        context = state['context']
+        rehydrated = state['rehydrated']
         before = snapshot(context)
         before_map = dict(dict.items(context))
-        src = op['src']
+        src = op.get('src')
         res = None
         if 'eval' in op:
             oracle = None
             facts = expr_facts(op['eval'])
-            modwalrus = bool(facts & {'walrus-top-level', 'walrus-in-comprehension'})
-            use_oracle = (clean_ns and not modwalrus and 'append' not in facts and 'dunder-read' not in facts
-                          and '__builtins__' not in context)
+            # M3 needs a second, side-effect free evaluation: not for expressions that mutate (append); a
+            # context key __builtins__ makes "plain Python with the keys as globals" lose its builtins
+            if '__builtins__' in context:
+                notes.append('ctx:reserved-key-__builtins__(hidden from !py by the namespace object; not judged)')
+            use_oracle = 'append' not in facts and '__builtins__' not in context
             if use_oracle:
-                oracle = plain_eval(w, src, context)
+                oracle = plain_eval(w, src, context, my_imps)
             try:
                 v = PyString(src).get_value(context)
                 res = ('ok', v)
@@ -487,14 +755,19 @@ def run_impl(case, upto=None):
             if oracle is not None:
                 got = {'err': res[1]} if res[0] == 'err' else {'ok': w.dump(res[1], {})}
                 if got != oracle:
+                    # same expression on a NEW Context with the same keys and imports: tells a defect of the
+                    # lookup itself from state that the used Context object carries along
+                    fresh = Context(dict(dict.items(context)))
+                    fresh.pystring_globals_update(my_imps)
+                    effect = ('differs-on-the-used-Context-object-only(earlier-evaluations-or-rehydration)'
+                              if eval_obs(w, src, fresh) == oracle else 'differs-on-a-new-Context-too')
                     findings.append((
                         f'!py {src!r}: reads do not see what plain Python sees with context keys (then '
-                        f'pyimport names, then builtins) as variables',
+                        f'pyimport names, then builtins) as variables at that moment',
                         {'site': 'get_eval_string', 'monitor': 'read-provenance',
-                         'construct': eval_construct(op['eval'])},
+                         'construct': eval_construct(op['eval']), 'effect': effect,
+                         'rehydrated': rehydrated},
                         {'impl': got, 'plain': oracle}))
-            if modwalrus:
-                clean_ns = False
         elif 'exec' in op:
             w.src_text[src] = 'py'
             dict.__setitem__(context, 'py', src)
@@ -538,6 +811,54 @@ def run_impl(case, upto=None):
                     'pyimport changed the context: ' + describe_change(before_map, context),
                     {'site': 'pyimport.run_step', 'effect': 'context-changed'},
                     {'before': [k for k, _ in before], 'after': [k for k, _ in after]}))
+            if res[0] == 'ok':
+                for k, v in op['pyimport']:
+                    my_imps[k] = w.val(v)
+                    cleared.discard(k)
+                import_probe(w, context, my_imps, cleared, findings,
+                             'pyimport' + (f' on a Context rehydrated by {rehydrated}' if rehydrated else ''))
+        elif 'ctxset' in op:
+            context.update({k: w.val(v) for k, v in op['ctxset']})
+            res = ('ok', None)
+        elif 'ctxdel' in op:
+            for k in op['ctxdel']:
+                if k in context:
+                    del context[k]
+            res = ('ok', None)
+        elif 'clearall' in op:
+            try:
+                clearallstep.run_step(context)
+                res = ('ok', None)
+            except Exception as e:     # noqa
+                res = ('err', err_name(e))
+            if len(context):
+                findings.append(('contextclearall left keys in the context',
+                                 {'site': 'contextclearall.run_step', 'effect': 'context-not-empty'},
+                                 {'after': list(dict.keys(context))}))
+            cleared.update(my_imps)
+            my_imps.clear()
+            import_probe(w, context, my_imps, cleared, findings,
+                         'contextclearall' + (f' on a Context rehydrated by {rehydrated}' if rehydrated else ''))
+        elif 'rehydrate' in op:
+            want = w.dump_env(before_map, {})
+            try:
+                new, used = rehydrate(context, op['rehydrate'])
+                res = ('ok', None)
+            except Exception as e:     # noqa
+                new, used = context, None
+                res = ('err', err_name(e))
+            if used is not None:
+                notes.append('rehydrate:' + (used if used == op['rehydrate'] else f"{op['rehydrate']}->{used}"))
+                got = w.dump_env(dict(dict.items(new)), {})
+                ident = used != 'copy' or [id(v) for v in dict.values(new)] == [i for _, i in before]
+                if type(new) is not Context or got != want or not ident:
+                    findings.append((
+                        f'{used} round trip of the Context changed its keys / values',
+                        {'site': 'Context.__setstate__', 'effect': 'context-changed', 'how': used},
+                        {'before': want, 'after': got, 'type': type(new).__name__}))
+                context = state['context'] = new
+                rehydrated = state['rehydrated'] = used
+                import_probe(w, context, my_imps, cleared, findings, f'{used} round trip of the Context')
         seen = {}
         if res[0] == 'err':
             rj = {'err': res[1]}
@@ -549,8 +870,19 @@ def run_impl(case, upto=None):
         if imps is not None and nsobj is not None:
             step['imps'] = w.dump_env(imps, seen)
             step['hidden'] = w.dump_env({k: v for k, v in dict.items(nsobj) if k != '__builtins__'}, seen)
-        steps.append(step)
-    return steps, findings
+        return step
+
+    for i, op in enumerate(ops):
+        if soft_from is not None and i >= soft_from:
+            signal.setitimer(signal.ITIMER_REAL, soft_s)
+            try:
+                steps.append(do_op(op))
+            except hang:
+                notes.append('monitor-only-op:timeout(run ends)')
+                break
+        else:
+            steps.append(do_op(op))
+    return steps, findings, notes
 
 
 def describe_change(before_map, context):
@@ -569,12 +901,13 @@ def describe_change(before_map, context):
     return ', '.join(out[:6])
 
 
-def plain_eval(w, src, context):
+def plain_eval(w, src, context, my_imps):
     """What plain Python gives for the expression when context keys, then pyimport names, then
-    builtins are ordinary global variables (the reading of 'as plain variables')."""
+    builtins are ordinary global variables (the reading of 'as plain variables'). The globals dict is
+    thrown away: what the expression binds with := shadows a key for its own later reads, as in Python,
+    and goes nowhere. `my_imps` is the harness's own record of what pyimport was asked to register."""
     g = {}
-    imps = getattr(context, '_pystring_globals', None) or {}
-    g.update(imps)
+    g.update(my_imps)
     g.update(dict.items(context))
     try:
         v = eval(src, g)
@@ -703,7 +1036,8 @@ class Gen:
             return C(r.choice([0, 1, 2, 9]))
         can_walrus = not sc['in_iter'] and not (sc['in_comp'] and sc['in_cls'])
         if x < 0.46 and can_walrus:
-            cands = [n for n in LOCALS[:4] + PLAIN_KEYS[:3] + SHADOW_KEYS[:1] + sc['ctxkeys'][:2] if n not in sc['iters']]
+            cands = [n for n in LOCALS[:4] + PLAIN_KEYS[:3] + SHADOW_KEYS[:1] + sc['ctxkeys'][:2]
+                     if n not in sc['iters'] and n != '__builtins__']
             if cands:
                 t = r.choice(cands)
                 e = self.expr(dict(sc, top=False), depth - 1)
@@ -768,15 +1102,17 @@ class Gen:
         for _ in range(n):
             x = r.random()
             if x < 0.22:
-                t = r.choice(LOCALS[:4] + sc['ctxkeys'][:3] + ['r0', 'r1'])
+                t = r.choice([k for k in LOCALS[:4] + sc['ctxkeys'][:3] + ['r0', 'r1'] if k != '__builtins__'])
                 stmts.append(As(t, self.expr(sc, 3)))
                 sc['bound'].append(t)
             elif x < 0.32:
                 t = r.choice(sc['ctxkeys'] + sc['bound']) if (sc['ctxkeys'] or sc['bound']) else 'x'
+                t = 'x' if t == '__builtins__' else t
                 e = self.seqname(sc) if r.random() < 0.6 else self.expr(sc, 2)
                 stmts.append(Aug(t, e))
             elif x < 0.38:
-                t = r.choice(sc['ctxkeys'] + sc['bound'] + ['x']) if r.random() < 0.9 else r.choice(RESERVED_RARE)
+                t = r.choice(sc['ctxkeys'] + sc['bound'] + ['x']) if r.random() < 0.9 else r.choice(['save', 'py'])
+                t = 'x' if t == '__builtins__' else t
                 stmts.append(Del(t))
             elif x < 0.46:
                 stmts.append(Imp(self.import_spec()))
@@ -832,17 +1168,123 @@ class Gen:
             kws.append((k, self.expr(dict(sc, top=False), 2)))
         return Save(names, kws)
 
-    def import_spec(self):
+    def import_spec(self, prefer=()):
         r = self.rng
         mod = r.choice(MODS)
+        aliases = [None, None, 'a', 'x', 'len', 'y']
+        prefer = [p for p in prefer if p.isidentifier() and not p.startswith('__') and p not in ('py', 'pyImport', 'save')]
+        if prefer and r.random() < 0.4:
+            aliases = [r.choice(prefer)]
         if r.random() < 0.3:
-            return ('import', mod, r.choice([None, 'a', 'x', 'len', 'n1']))
-        return ('from', mod, r.choice(IMPORTABLE), r.choice([None, None, 'a', 'x', 'len', 'y']))
+            return ('import', mod, r.choice([None, 'a', 'x', 'len', 'n1'] if len(aliases) > 1 else aliases))
+        return ('from', mod, r.choice(IMPORTABLE), r.choice(aliases))
 
     # ---- sessions ----
+    def probe(self, names):
+        """`(x, (lambda: x)(), [x for i in (0,)], …)`: the same names read at top level, from a function
+        scope and from a comprehension."""
+        r = self.rng
+        xs = r.sample(names, min(len(names), r.choice([1, 1, 2, 3])))
+        parts = []
+        for x in xs:
+            parts.append(N(x))
+            y = r.random()
+            if y < 0.5:
+                parts.append(Call(Lam([], N(x))))
+            elif y < 0.7:
+                parts.append(Comp(N(x), [('i', T(C(0)), [])], gen=r.random() < 0.5))
+        return T(*parts)
+
+    def mixed(self):
+        """Several evaluations / py blocks / pyimports on ONE Context with context updates, deletions,
+        contextclearall and rehydration of the Context object in between. Names an earlier expression bound
+        with := are preferred for later reads, later context keys and later imports."""
+        r = self.rng
+        ctx, heap = self.context(with_py=False)
+        keys = [k for k, _ in ctx]
+        ops = []
+        imports = []
+        hist = []          # names bound by := in earlier evaluations, imported or deleted earlier
+        deep = False       # the Context was pickled / deep-copied: heap cells of the case are stale
+        serial = [0]
+
+        def fresh_val(k):
+            x = r.random()
+            serial[0] += 1
+            if x < 0.7:
+                return tok('ctx', f'{k}#{serial[0]}')
+            if x < 0.8 and heap and not deep:
+                return ref(r.randrange(len(heap)))
+            if x < 0.9:
+                return r.choice([0, 1, 5])
+            return None
+
+        def add(k):
+            if k not in keys:
+                keys.append(k)
+
+        for _ in range(r.choice([3, 4, 5, 6, 7])):
+            x = r.random()
+            if x < 0.45:
+                names = list(dict.fromkeys(hist + imports + keys[:4]))
+                if names and r.random() < 0.35:
+                    e = self.probe(names)
+                else:
+                    e = self.expr(self.scope(keys, imports, bound=hist), r.choice([1, 2, 3, 3]))
+                ops.append({'eval': e})
+
+                def f(kind, node, scope, in_comp):
+                    if kind == 'walrus' and node['w'][0] not in hist:
+                        hist.append(node['w'][0])
+                walk_expr(e, f)
+            elif x < 0.57:
+                specs = [self.import_spec(hist) for _ in range(r.choice([1, 1, 2]))]
+                ops.append({'ctxset': [['pyImport', tok('special', 'pyImport')]]})
+                add('pyImport')
+                ops.append({'pyimport': pyimport_bindings(specs), 'specs': [list(s) for s in specs]})
+                for b in ops[-1]['pyimport']:
+                    if b[0] not in imports:
+                        imports.append(b[0])
+            elif x < 0.69:
+                kind = r.choice(['pickle', 'pickle', 'deepcopy', 'deepcopy', 'copy'])
+                ops.append({'rehydrate': kind})
+                deep = deep or kind != 'copy'
+            elif x < 0.81:
+                cands = hist + hist + keys + imports + SHADOW_KEYS + PLAIN_KEYS
+                ks = list(dict.fromkeys(r.choice(cands) for _ in range(r.choice([1, 1, 2, 3]))))
+                ks = [k for k in ks if k not in ('py', 'pyImport')]
+                if ks:
+                    ops.append({'ctxset': [[k, fresh_val(k)] for k in ks]})
+                    for k in ks:
+                        add(k)
+            elif x < 0.86:
+                if keys:
+                    ks = list(dict.fromkeys(r.choice(keys + hist) for _ in range(r.choice([1, 1, 2]))))
+                    ops.append({'ctxdel': ks})
+                    for k in ks:
+                        if k in keys:
+                            keys.remove(k)
+                            hist.append(k)
+            elif x < 0.89:
+                ops.append({'clearall': True})
+                hist += [k for k in keys + imports if k not in hist and k not in ('py', 'pyImport')]
+                keys = []
+                imports = []
+            else:
+                ops.append({'ctxset': [['py', tok('special', 'py')]]})
+                add('py')
+                b = self.block(keys, imports)
+                ops.append({'exec': b})
+                for k in sorted(saved_names(b)):
+                    add(k)
+        return render({'ctx': ctx, 'heap': heap, 'ops': ops, 'kind': 'mixed'})
+
     def session(self):
         r = self.rng
-        kind = 'exec' if r.random() < 0.42 else 'eval'
+        x = r.random()
+        if x < 0.42:
+            return self.mixed()
+        kind = 'exec' if x < 0.67 else 'eval'
         ctx, heap = self.context(with_py=(kind == 'exec'))
         ctxkeys = [k for k, _ in ctx]
         ops = []
@@ -873,13 +1315,17 @@ def payload(case, old=False, fuel=400):
     names = set(ALL_NAMES)
     for k, _ in case['ctx']:
         names.add(k)
+    for op in case['ops']:
+        for k, _ in op.get('ctxset', []) + op.get('pyimport', []):
+            names.add(k)
     return {'ctx': case['ctx'], 'imps': case.get('imps', []), 'heap': case['heap'],
             'bi': bi_names(names | collect_names(case)), 'ops': [strip(op) for op in case['ops']],
             'old': old, 'fuel': fuel}
 
 
 def strip(op):
-    return {k: v for k, v in op.items() if k in ('eval', 'exec', 'pyimport')}
+    return {k: v for k, v in op.items() if k in ('eval', 'exec', 'pyimport', 'ctxset', 'ctxdel', 'clearall',
+                                                 'rehydrate')}
 
 
 def collect_names(case):
@@ -901,6 +1347,8 @@ def collect_names(case):
 
 
 def compiles(op):
+    if 'eval' not in op and 'exec' not in op:
+        return True
     try:
         compile(op['src'], '<c14>', 'eval' if 'eval' in op else 'exec')
         return True
